@@ -193,3 +193,9 @@ func newCtx() (context.Context, context.CancelFunc) {
 }
 
 func ipmiRecordID(id int) ipmi.RecordID { return ipmi.RecordID(id) }
+
+// short aliases for environment types used in menu literals
+type envT = env.Transport
+type envA = env.Answer
+
+func envHonest() env.Answer { return env.Honest() }
